@@ -10,6 +10,8 @@
   slot_map.rs -> Evenio/Generated/SlotMapGen.lean     (`SlotMap::{insert_with, remove, get, get_by_index, next_key_iter}`,
                                                       `NextKeyIter::next`, `Slot::is_vacant`, `Key::new`, same translator;
                                                       `Evenio/Proofs/SlotMapGen.lean`)
+  sparse_map.rs -> Evenio/Generated/SparseMapGen.lean (`SparseMap::{get, insert, remove}`, same translator;
+                                                      `Evenio/Proofs/SparseMapGen.lean`)
 
 Each extraction either succeeds (file rewritten, status "extracted") or fails (the committed fallback copy
 `*.lean.fallback` is installed, status "failed: <why>").  Status is written as JSON to stdout / --status.
@@ -569,6 +571,8 @@ def extract_slot_map():
                        ["SlotMap", "Slot::is_vacant", "Key::new", "insert_with", "remove", "get", "get_by_index",
                         "next_key_iter", "NextKeyIter::next",
                         "--namespace", "Evenio.Gen.SlotMap", "--tyvar", "α",
+                        "--import", "Evenio.Generated.Rs2LeanPrelude", "--import", "Evenio.Model.SlotMap",
+                        "--open", "Evenio.Rs2Lean",
                         "--type", "SlotMap=Evenio.SlotMap α", "--type", "Slot=Evenio.Slot α", "--type", "Key=Evenio.Key",
                         "--type", "T=α", "--struct", "NextKeyIter",
                         "--field", "SlotMap.next_free=nextFree", "--field", "Slot.generation=gen",
@@ -581,6 +585,21 @@ def extract_slot_map():
                         "NextKeyIter.next"])
 
 
+def extract_sparse_map():
+    """sparse_map.rs: `SparseMap::{get, insert, remove}` over the hand model's record `SparseMap ν`; the key type
+    `K: SparseIndex` is `Nat` with `K::MAX.index() = U32MAX`, `index()` / `from_index()` the identity (as in the hand model);
+    `Evenio/Proofs/SparseMapGen.lean` proves them equal to the hand model."""
+    return run_rs2lean("src/sparse_map.rs",
+                       ["SparseMap", "get", "insert", "remove",
+                        "--namespace", "Evenio.Gen.SparseMap", "--tyvar", "ν",
+                        "--import", "Evenio.Generated.Rs2LeanPrelude", "--import", "Evenio.Model.SparseMap",
+                        "--open", "Evenio.Rs2Lean",
+                        "--type", "SparseMap=Evenio.SparseMap ν", "--type", "K=Nat", "--type", "V=ν",
+                        "--prim", "K::index(self) -> usize=_", "--prim", "K::from_index(usize) -> K=_",
+                        "--prim", "K::MAX: K=Evenio.U32MAX"],
+                       ["get", "insert", "remove"])
+
+
 def main():
     status_path = None
     if "--status" in sys.argv:
@@ -588,7 +607,8 @@ def main():
     os.makedirs(OUT, exist_ok=True)
     status = {}
     for name, fn in [("AccessTables", extract_access), ("Gates", extract_gates), ("Sites", extract_sites),
-                     ("HandlerListGen", extract_funcs), ("SlotMapGen", extract_slot_map)]:
+                     ("HandlerListGen", extract_funcs), ("SlotMapGen", extract_slot_map),
+                     ("SparseMapGen", extract_sparse_map)]:
         target = os.path.join(OUT, name + ".lean")
         fallback = os.path.join(OUT, name + ".lean.fallback")
         old = open(target).read() if os.path.exists(target) else None
